@@ -71,10 +71,16 @@ MonChildAttr ==
         /\ \A L \in hls : last.n \in NamesOf(L) => (last.kind = EntryOf(L, last.n).kind /\ last.ino = EntryOf(L, last.n).ino)
 \* inode numbers: all in the layer's range, 1 and 2 only for the state directory and its file, one number per name
 \* and one name per number, the same on every call
+\* hard links of each other (the model's link "l" -> "a") legitimately share the inode
+MonLinked(n1, n2) == {n1, n2} = {LinkName, LinkTarget} /\ LinkName \in src
+\* ... and report the link count of the shared inode; other regular files report 1
+MonHardLinks ==
+    (last.ev \in {"Lookup", "GetattrChild"} /\ last.errno = "OK" /\ last.kind = "reg") =>
+        last.nlink = (IF LinkName \in src /\ last.n \in {LinkName, LinkTarget} THEN 2 ELSE 1)
 MonInodesUniqueStable ==
     \A x, y \in seen :
         /\ x.hi = base
-        /\ (x.name = y.name) <=> (x.lo = y.lo)
+        /\ (x.name = y.name \/ MonLinked(x.name, y.name)) <=> (x.lo = y.lo)
         /\ x.lo >= 1
         /\ (x.lo \in {1, 2}) <=> (x.name \in {StateDir, StateDir \o "/stat"} /\ isRoot)
 MonOpaqueXattr ==
